@@ -145,7 +145,7 @@ class C09(Prop):
             if rec.extra.get("pool_used"):
                 out.append(viol("pool-slot-lost", rec, used=rec.extra["pool_used"]))
             if rec.outcome == "raise" and isinstance(rec.exc, RuntimeError):
-                out.append(viol("pool-exhausted", rec, err=str(rec.exc)[:80]))
+                out.append(viol("pool-exhausted", rec, err=engine._exc_text(rec.exc)[:80]))
             # (b) a socket that failed during this call is closed by the end of it ...
             for sid in used_socks:
                 s = w.sockets[sid]
